@@ -233,6 +233,33 @@ def run(ctx) -> None:
     pcf_src = unparse(prog.function("config._parse_config").node)
     consumed = {k for k in consumed if f"'{k}'" in pcf_src} | {"file_patterns"}
     ctx.floor("R2", "keys consumed by _parse_config", len(consumed), 11)
+    # default_config appends the snippet of every file that exists, one after the other: every ordered pair of snippets still parses
+    n_pairs = 0
+    for fmt, names in bases.items():
+        for name in names:
+            base2 = _fill(prog.const("config", name))
+            for fa, sa_ in sorted(tables[fmt].items()):
+                for fb, sb_ in sorted(tables[fmt].items()):
+                    if fa == fb:
+                        continue
+                    n_pairs += 1
+                    text2 = base2 + sa_ + sb_
+                    try:
+                        if fmt == "toml":
+                            tomllib.loads(text2)
+                            fps2 = None
+                        else:
+                            cp2 = configparser.RawConfigParser()
+                            cp2.optionxform = str  # type: ignore
+                            cp2.read_file(io.StringIO(text2))
+                            fps2 = [k for k, _v in cp2.items("bumpver:file_patterns")] if cp2.has_section("bumpver:file_patterns") else []
+                        if fps2 is not None and not ({fa, fb} <= set(fps2)):
+                            raise ValueError(f"entries {fps2} instead of {fa} and {fb} (a snippet does not end its last line)")
+                    except Exception as ex2:
+                        ctx.bad("R2", f"config.{name}: the snippets for {fa} and {fb}, appended one after the other, do not parse as {fmt}",
+                                f"{type(ex2).__name__}: {str(ex2)[:120]} - in a project that has both files `init` writes a configuration that `show` cannot read",
+                                loc="src/bumpver/config.py", witness={"files": [fa, fb]}, what=f"{name} + snippet[{fa}] + snippet[{fb}] parses as {fmt}")
+    ctx.floor("R2", "ordered pairs of file snippets parsed after a base template", n_pairs, 20)
     n_t = n_s = 0
     self_files = {"cfg": {"setup.cfg"}, "toml": {"pyproject.toml", "bumpver.toml", ".bumpver.toml", "pycalver.toml"}}
     for fmt, names in bases.items():
